@@ -12,9 +12,11 @@
  *     list: an entry appended during the walk is run when the walk reaches it, a deleted entry
  *     that has not run yet is not run.  (bay_enable_cb/bay_disable_cb die() on a dirty bay
  *     channel, but bay_chan.is_dirty is never set to 1 anywhere in bay.c, so that die is dead.)
- *   - the list order is the order of enabling.  Here every channel has at most two callbacks and
- *     the first registered one (cb_select, registered enabled by mux_init) is never disabled, so
- *     list order == registration order; gb_disable asserts that.
+ *   - the list order is the order of enabling.  Here only the LAST registered callback of a
+ *     channel is ever disabled / re-enabled and every callback is registered while the earlier
+ *     ones of its channel are enabled (breakdown: at most two per channel, the first one being
+ *     cb_select, registered enabled by mux_init and never disabled), so list order ==
+ *     registration order; bay_disable_cb / bay_add_cb_tagged flag gb_bad otherwise.
  *   Hence: for each queued channel, in queue order, each registered callback in registration
  *   order is run iff its `enabled` flag is set WHEN ITS TURN COMES.
  *   - after the dirty phase every queued channel is flushed (chan_flush) and the list emptied.
@@ -42,7 +44,9 @@
 #ifndef GB_MAXCH
 #define GB_MAXCH 5
 #endif
+#ifndef GB_MAXCB
 #define GB_MAXCB 2
+#endif
 #ifndef GB_MAXLEAF
 #define GB_MAXLEAF 2
 #endif
@@ -172,8 +176,12 @@ bay_disable_cb(struct bay_cb *cb)
 	for (int i = 0; i < GB_MAXCH; i++) {
 		if (i >= gb_nch)
 			break;
-		if (gb_ch[i].nreg == 2 && GB_PTR_EQ(gb_ch[i].reg[0], cb))
-			gb_bad = 1;
+		for (int k = 0; k + 1 < GB_MAXCB; k++) {
+			if (k + 1 >= gb_ch[i].nreg)
+				break;
+			if (GB_PTR_EQ(gb_ch[i].reg[k], cb))
+				gb_bad = 1;
+		}
 	}
 	cb->enabled = 0;
 }
@@ -187,8 +195,12 @@ bay_add_cb_tagged(struct bay *bay, enum bay_cb_type type, struct chan *chan, int
 		gb_bad = 1;
 		return NULL;
 	}
-	if (gc->nreg == 1 && !gc->reg[0]->enabled)
-		gb_bad = 1; /* list order == registration order needs the first one enabled */
+	for (int k = 0; k < GB_MAXCB; k++) {
+		if (k >= gc->nreg)
+			break;
+		if (!gc->reg[k]->enabled)
+			gb_bad = 1; /* list order == registration order needs the earlier ones enabled */
+	}
 	struct bay_cb *cb = &gb_pool[gb_npool++];
 	cb->func = NULL;
 	cb->arg = arg;
